@@ -102,9 +102,26 @@ static void describe(impl::Lexicon& lex, int which, std::map<std::string, const 
                int(physically_same(lex.get_label(lex.get_identifier(u8"default")), lex.default_value())));
 }
 
+// addresses of the constants, shared by every observation below, the one made before main() included
+static std::map<std::string, const void*>& addresses() { static std::map<std::string, const void*> a; return a; }
+
+namespace {
+   // A client whose namespace-scope object consults a Lexicon while ITS translation unit is being initialized (this file is
+   // linked before the library): the constants and every route from a spelling to them are the same as from main().
+   struct Before_main {
+      Before_main()
+      {
+         try { impl::Lexicon lex; describe(lex, 0, addresses()); }
+         catch (const std::exception& e) { std::printf("L0 exception what=%s\n", e.what()); }
+         std::fflush(stdout);
+      }
+   };
+   const Before_main before_main;
+}
+
 int main()
 {
-   std::map<std::string, const void*> addr;
+   auto& addr = addresses();
    auto l1 = std::make_unique<impl::Lexicon>();
    auto l2 = std::make_unique<impl::Lexicon>();
    // put some work into the first two so that their tables are non-empty
